@@ -7,6 +7,7 @@ SETUP = ['|12 34 56| var bs', '[ 1 2 3 ] var vec { 1 "a" } var mp', ': inc 1 + ;
          '[ 1 2 3 ] >bitstr open-bitstr 8 bits drop 8 bits close-bitstr var sl', '[ 255 15 ] >bitstr open-bitstr 4 bits drop 8 bits close-bitstr var sl', '|a5 5a c3| var bs bs 4 bits drop', '[ |ff| |00| ] var bvec', '1 2 3']
 MUTATE = ['bs |ff| bitstr-append ! bs', 'bs bitstr-not ! bs', 'bs |0| swap bitstr-append', '7 vec push ! vec', 'mp 2 "b" insert ! mp', 'mp "a" remove ! mp',
           ': inc 2 + ;', 'n inc ! n', ': later 42 ; usesit', 'part |x.x| bitstr-append ! part', 'part bitstr-not', 'u8 drop', '8 seek', 'close-bitstr',
+          'bs |ff| bitstr-and', 'bs |f| bitstr-or print', 'bs |0| bitstr-xor println', '|ff 00| |f| bitstr-and print',
           'sl |cc| swap bitstr-append open-bitstr offset remain close-bitstr', 'sl bitstr-not open-bitstr offset close-bitstr', 'sl |1| bitstr-append ! sl sl',
           'sl open-bitstr offset 4 bits close-bitstr',
           's " more" [ ] swap push swap push reverse concat ! s', 'cnt 1 + ! cnt', 'drop', '99', '1 var fresh', 'vec reverse ! vec', 'bs 8 bits',
@@ -71,7 +72,8 @@ class C03(XsProp):
                         '|a5 5a c3| open-bitstr 8 bits close-bitstr', '[ 9 8 7 6 ] >bitstr open-bitstr 16 bits drop 9 bits close-bitstr']
         consumers = ['|cc| swap bitstr-append open-bitstr offset remain close-bitstr', 'bitstr-not open-bitstr offset close-bitstr',
                      '|1| bitstr-append dup open-bitstr offset close-bitstr', 'dup |0| swap bitstr-append swap bitstr-not', 'open-bitstr offset remain',
-                     '|x.| swap bitstr-append length', 'dup bitstr-not swap |ff| bitstr-append']
+                     '|x.| swap bitstr-append length', 'dup bitstr-not swap |ff| bitstr-append', '|ff| bitstr-and print', '|1| bitstr-xor println',
+                     'dup |f| bitstr-or print print']
         for pre in stack_slices:
             for c1 in consumers:
                 ev = 'eval %s | stack | out' % hexsrc(c1)
